@@ -3,20 +3,28 @@ from lib import terms
 from props import dbcommon as D
 
 ID = 'C07'
-IMPORTS = ['Engine.Db', 'Engine.DbCursor', 'Engine.DbFacts', 'Engine.RunDb']
+IMPORTS = ['Engine.Db', 'Engine.DbCursor', 'Engine.DbFacts', 'Engine.RunDb', 'Engine.DbProg', 'Engine.RunDbProg']
 THEOREMS = ['C07_db_refines_list_spec', 'C07_db_refines_list_spec_from_init', 'C07_sim_op', 'C07_query_cursor_answers',
-            'C07_match_binds_pattern', 'C07_ids_invariant']
+            'C07_match_binds_pattern', 'C07_ids_invariant', 'C07_nothing_raises', 'C07_compiled_updates_are_list_operations']
 RULE = ('histories of 3-30 operations (asserta/assertz through the builtin, through a goal held in a bound variable, '
         'through a compiled clause, and through YP.assert_fact; retract taken for k answers then closed or run to '
         'exhaustion; retractall; queries through YP.query, a compiled clause and call/1; clear) over 1-3 predicates of '
         'arity 0-3, mostly one predicate so that lists get long; all predicates are read back with all-variable queries '
         'after every operation.  Non-trivial: at least one retract answer, at least one pattern with a variable and the '
-        'predicate had >= 2 facts at some point.  Distinct by hash of the case.')
+        'predicate had >= 2 facts at some point.  (b) kind dbprog: generated programs (init clause asserting 0-5 facts, a '
+        'main clause of 2-9 goals over goals on dynamic facts, retract, asserta/assertz, retractall, =, calls of a helper '
+        'predicate, goals held in bound variables, unknown predicates, optionally ending in fail with a second clause) '
+        'compiled by the real compiler and run by 2-3 queries; compared with the model Engine/DbProg.v: all answers of '
+        'every query, the stored facts of every predicate at the end, the number of facts stored during the run.  '
+        'Non-trivial (b): a goal that enumerates a predicate is followed in the same body by an update of that predicate.  '
+        'Distinct by hash of the case.')
 TRUSTED_BASE = [
     'Coq 8.16.1 kernel (coqc); vm_compute for the in-Coq evaluation of the model on every case',
     'no axioms: all C07 theorems are closed under the global context',
     'hand-written model Engine/Db.v, DbCursor.v, DbFacts.v of engine.py assert_fact/asserta/assertz/retract/retractall/clear/'
     'match_dynamic/_match_all_clauses/Answer/copy_term; tied to /repo by this differential run (not by translation)',
+    'hand-written model Engine/DbProg.v of compiled clause bodies with database builtins (query() = facts first, then the compiled '
+    'function; nested for-loops = depth-first search; database, Answer identities and allocation counter threaded through the search)',
     'harness: generators, driver of the implementation (harness/props/dbcommon.py), parser of the printed observations',
     'modelled, not verified: CPython generator protocol (a generator function runs nothing until the first next())',
 ]
@@ -33,6 +41,8 @@ def gen(rng, tier):
         nops = rng.choice([3, 5, 8, 12, 16, 25])
         inter = rng.choice([0.0, 0.0, 0.0, 0.3])
         cases.append(D.gen_history(rng, nops, inter))
+    for i in range(200 if tier == 'quick' else 3000):
+        cases.append(D.gen_dbprog(rng, loopy=0.35))
     return cases
 
 def builtin_corpus():
@@ -54,20 +64,31 @@ def builtin_corpus():
     c(['assert', False, f('p', a, b), 'compiled'], ['assert', False, f('p', b, b), 'compiled'], ['assert', True, f('p', a), 'builtin'],
       ['start', 0, 'q', 'p', [v(0), v(0)], 'compiled'], ['next', 0], ['next', 0], ['clear'], ['qall', 'p', [v(0), v(1)]])
     c(['assert', False, f('p', v(0), f('f', v(0))), 'builtin'], ['start', 0, 'q', 'p', [a, v(0)], 'call'], ['next', 0], ['next', 0])
-    return L
+    return L + D.dbprog_corpus()
 
-model_expr = D.model_expr
+def model_expr(case):
+    if case.get('kind') == 'dbprog':
+        return D.prog_model_expr(case)
+    return D.model_expr(case)
 
 def impl(case):
+    if case.get('kind') == 'dbprog':
+        return D.prog_run_impl(case)
     return D.drive_events(case)
 
 def compare(case, io, mo):
+    if case.get('kind') == 'dbprog':
+        return D.prog_compare(case, io, mo)
     return D.compare_events(case, io, mo)
 
 def oracle(case, io):
+    if case.get('kind') == 'dbprog':
+        return D.prog_oracle(case, io)
     return D.list_oracle(case, io)
 
 def nontrivial(case, io):
+    if case.get('kind') == 'dbprog':
+        return D.prog_nontrivial(case, io)
     ret_ans = False
     patvar = False
     long_list = any(len(l) >= 2 for o in io if len(o) == 2 and isinstance(o[1], list) for l in o[1])
@@ -83,13 +104,30 @@ def nontrivial(case, io):
     return ret_ans and patvar and long_list
 
 def describe(case):
+    if case.get('kind') == 'dbprog':
+        return D.prog_describe(case)
     return [D.show_event(e) for e in case['events']]
 
-shrink = D.shrink_events
+def shrink(case):
+    if case.get('kind') == 'dbprog':
+        yield from D.prog_shrink(case)
+    else:
+        yield from D.shrink_events(case)
 
 def distribution(cases, obs):
     d = {'events': {}, 'length': {}, 'keys': {}, 'via': {}, 'ended': {'complete': 0, 'deep': 0, 'raised': 0}, 'retract_answers': 0, 'max_list_len': {}}
+    d['kinds'] = {}
+    d['prog_goals'] = {}
     for c, o in zip(cases, obs):
+        kd = c.get('kind', 'events')
+        d['kinds'][kd] = d['kinds'].get(kd, 0) + 1
+        if kd == 'dbprog':
+            for cl in c['clauses']:
+                for g in cl['body']:
+                    d['prog_goals'][g[0]] = d['prog_goals'].get(g[0], 0) + 1
+            e = o['end'] if isinstance(o, dict) else 'other'
+            d['ended'][e] = d['ended'].get(e, 0) + 1
+            continue
         for e in c['events']:
             d['events'][e[0]] = d['events'].get(e[0], 0) + 1
             if e[0] in ('assert', 'start', 'retractall'):
